@@ -136,8 +136,9 @@ def autocorr_1d_int(data, nodata):
     ny = int64(0)  # number of valid Yi
 
     for i in range(N):
-        x = xx[i]
-        y = yy[i]
+        # widen explicitly: products of int16 cells overflow outside numba
+        x = int64(xx[i])
+        y = int64(yy[i])
 
         if x != nodata:
             Sx += x
